@@ -49,6 +49,19 @@ def short_strings(maxlen: int) -> Iterator[Tuple[str, bool]]:
                     yield (pre + suffix, strict)
 
 
+def code_points(tier: str) -> Iterator[Tuple[str, bool]]:
+    """Every non-ASCII code point of the Basic Multilingual Plane (thorough: every code point) as a character of the
+    service label: caseless matching and Unicode-aware character classes let a few of them pass as a letter or digit."""
+    top = 0x10000 if tier == "quick" else 0x110000
+    for cp in range(0x80, top):
+        if 0xD800 <= cp < 0xE000:
+            continue
+        c = chr(cp)
+        for name in (f"_a{c}._tcp.local.", f"_{c}._tcp.local.", f"_1{c}._udp.local."):
+            for strict in (True, False):
+                yield (name, strict)
+
+
 def check_name(case: Tuple[str, bool]) -> Tuple[Optional[Dict[str, Any]], str]:
     from zeroconf import BadTypeInNameException
     from zeroconf._utils.name import service_type_name
@@ -144,6 +157,7 @@ def run(tier: str, seed: int) -> Tuple[Stats, str, List[str], Dict[str, Any]]:
     maxlen = 5 if tier == "quick" else 7
     enumerate_inputs(check_name, grammar(), stats, "names-grammar")
     enumerate_inputs(check_name, short_strings(maxlen), stats, "names-short")
+    enumerate_inputs(check_name, code_points(tier), stats, "names-code-points")
     enumerate_inputs(check_txt, txt_cases(tier), stats, "txt")
     stats.states = len(stats.outcomes)
     stats.sample({"name": "Inst._http._tcp.local.", "strict": True})
@@ -151,7 +165,7 @@ def run(tier: str, seed: int) -> Tuple[Stats, str, List[str], Dict[str, Any]]:
     stats.sample({"properties": [["a", None], ["B", "x=y"]]})
     rule = ("names: full product instance x service x protocol x domain menus (every documented rule violated singly "
             "and in combination) x strict/non-strict, whole-name length boundary, and every string of length <= "
-            f"{maxlen} over {{_,a,-,1,.}} before 4 suffixes; TXT: all dictionaries with <= 2 entries over the "
+            f"{maxlen} over {{_,a,-,1,.}} before 4 suffixes, every non-ASCII code point (quick: of the BMP) inside three service labels; TXT: all dictionaries with <= 2 entries over the "
             "key/value menus, all 3-entry dictionaries over a reduced menu, item-length boundary; outcome classes = "
             "(model verdict, library outcome) per family")
     assumptions = [
